@@ -400,7 +400,8 @@ impl Gs {
     }
 }
 
-const BAD_ADDRESSES: [&str; 4] = ["", "node-3.cluster.internal", "10.0.0.300", "10.1.2.3:7000"];
+// (names that resolve without a network, and numbers in the notations only the old C resolver reads)
+const BAD_ADDRESSES: [&str; 10] = ["", "node-3.cluster.internal", "10.0.0.300", "10.1.2.3:7000", "localhost", "127.1", "010.0.0.1", "2130706433", "0x7f.0.0.1", "localhost."];
 const NOT_READY: [&str; 9] = [
     "PortAllocation",
     "Creating",
